@@ -7,6 +7,7 @@ package query
 
 import (
 	"sort"
+	"sync"
 
 	"github.com/siglens/siglens/pkg/hooks"
 )
@@ -80,3 +81,31 @@ func VerifWaitingQuery(qid uint64) *RunningQueryState {
 }
 
 func VerifStateChanCap() int { return queryStateChanSize }
+
+// Lock probes for the lock-discipline scenarios: 0 = free, 1 = held by readers only,
+// 2 = a writer holds the lock or waits for it.  A successful TryLock/TryRLock is released at once.
+func verifProbeRW(l *sync.RWMutex) int {
+	if l.TryLock() {
+		l.Unlock()
+		return 0
+	}
+	if l.TryRLock() {
+		l.RUnlock()
+		return 1
+	}
+	return 2
+}
+
+// VerifProbeLocks: arqMapLock, waitingQueriesLock and (when rq is not nil) rq.rqsLock.
+func VerifProbeLocks(rq *RunningQueryState) (arq, waitq, rqs int) {
+	arq = verifProbeRW(arqMapLock)
+	if waitingQueriesLock.TryLock() {
+		waitingQueriesLock.Unlock()
+	} else {
+		waitq = 2
+	}
+	if rq != nil {
+		rqs = verifProbeRW(rq.rqsLock)
+	}
+	return
+}
